@@ -546,6 +546,26 @@ func genC09Plan(r *zsim.Rng) *sysPlan {
 		feeds--
 		p.Events = append(p.Events, sysEvent{Kind: "feed", DelayMs: r.Intn(30)}, sysEvent{Kind: "settle"})
 	}
+	if r.Chance(1, 4) {
+		// an event of the list machinery is bound (to nothing that changes the state): it is not a key
+		p.Args = append(p.Args, "--bind", pick(r, "result", "load", "focus")+":ignore")
+	}
+	if feeds > 0 && r.Chance(1, 3) {
+		// jump mode is entered, more input arrives (the list is redrawn with its labels), then the label is typed
+		jk := ""
+		for _, b := range bound {
+			if b.action == "jump" {
+				jk = b.key
+			}
+		}
+		if jk != "" {
+			feeds--
+			p.Events = append(p.Events, sysEvent{Kind: "keys", Keys: jk, Tag: "jump"}, sysEvent{Kind: "settle"},
+				sysEvent{Kind: "feed", DelayMs: r.Intn(30)}, sysEvent{Kind: "settle"})
+			ch := pick(r, "a", "s", "d", "f")
+			p.Events = append(p.Events, sysEvent{Kind: "keys", Keys: ch, Tag: "char:" + ch}, sysEvent{Kind: "settle"})
+		}
+	}
 	nev := r.Range(1, 60)
 	settleEach := !r.Chance(1, 4)
 	for i := 0; i < nev; i++ {
